@@ -38,6 +38,9 @@ def gen(rng, tier):
         if a2["terms"]:
             a = a2
             b["valmode"], b["hash"] = a["valmode"], a["hash"]
+    if rng.chance(0.06):
+        # an operand without start symbol: CFG(), which is also what an empty intersection returns
+        (b if rng.chance(0.7) else a)["no_start"] = True
     sub_t = rng.pick(a["terms"])
     return {"a": a, "b": b, "same_object": rng.chance(0.1), "sub_terminal": sub_t}
 
